@@ -9,6 +9,7 @@ def main():
 
     slv = cvc5.Solver()
     slv.setOption("strings-exp", "true")
+    slv.setOption("arrays-exp", "true")
     slv.setOption("tlimit-per", str(tlimit))
     slv.setOption("produce-models", "true")
     if fmf:
